@@ -48,6 +48,16 @@ FamilyNested == { << Fact("f"), Fact("g") >> \o qs \o ps \o as :
                     as \in { << Rule("a", << L(1, "a") >>), Rule("a", << L(1, "f") >>) >>,
                              << Rule("a", << L(1, "f") >>), Rule("a", << L(1, "a"), L(1, "g") >>) >>,
                              << Rule("a", << L(1, "p") >>), Rule("a", << L(1, "f") >>) >> } }
+\* TWO recursive clauses around a base clause, in every clause order (recursive, base, recursive; ...): the second recursive
+\* call of a goal meets a cycle parent that already has a cycle child and results found in between
+Perm3(a, b, c) == { <<a, b, c>>, <<a, c, b>>, <<b, a, c>>, <<b, c, a>>, <<c, a, b>>, <<c, b, a>> }
+FamilyMultiRec == { << Fact("f"), Fact("g") >> \o rs \o qs :
+                      rs \in UNION { Perm3(Rule("r", << L(1, "q"), L(1, "f") >>), Rule("r", << L(1, "g") >>), Rule("r", << L(1, x), L(1, "f") >>))
+                                     : x \in {"q", "r"} },
+                      qs \in { << Rule("q", << L(1, "r") >>) >>,
+                               << Rule("q", << L(1, "r") >>), Rule("q", << L(1, "f"), L(1, "g") >>) >>,
+                               << Rule("q", << L(1, "f") >>), Rule("q", << L(1, "r") >>) >> } }
+QSmr == { << "r" >>, << "q" >>, << "r", "q" >>, << "q", "r" >> }
 \* a negated goal with a positive cycle of its own, evaluated while an enclosing cycle is open (the shape of KF2):
 \* a :- \+r.  r :- r.  r :- \+p.  p :- p.   - stratified, yet connecting p's cycle to the open root walks through the EvalNot
 FamilyKF2 == { << Fact("f"), Fact("g") >> \o as \o rs \o ps :
